@@ -422,13 +422,17 @@ class OutgoingMessageHandler:
         decoded_message: str,
     ) -> None:
         """Process outgoing set messages."""
+        key = (message.node_id, message.child_id, message.message_type)
         node = gateway.nodes.get(message.node_id)
         if message_buffer and node and node.sleeping:
-            message_buffer.set_messages[
-                (message.node_id, message.child_id, message.message_type)
-            ] = message
+            message_buffer.set_messages[key] = message
 
             return
+
+        if message_buffer:
+            # An older message that is still buffered for the same value, eg from
+            # before the node presented itself again, is superseded by this message.
+            message_buffer.set_messages.pop(key, None)
 
         await gateway.transport.write(decoded_message)
 
@@ -441,13 +445,17 @@ class OutgoingMessageHandler:
         decoded_message: str,
     ) -> None:
         """Process outgoing internal messages."""
+        key = (message.node_id, message.child_id, message.message_type)
         node = gateway.nodes.get(message.node_id)
         if message_buffer and node and node.sleeping:
-            message_buffer.internal_messages[
-                (message.node_id, message.child_id, message.message_type)
-            ] = message
+            message_buffer.internal_messages[key] = message
 
             return
+
+        if message_buffer:
+            # An older message that is still buffered for the same type, eg from
+            # before the node presented itself again, is superseded by this message.
+            message_buffer.internal_messages.pop(key, None)
 
         await gateway.transport.write(decoded_message)
 
